@@ -74,3 +74,25 @@ Theorem C35_gvariant_workaround :
   end = true.
 Proof. exact gvariant_repaired_coherent. Qed.
 Print Assumptions C35_gvariant_workaround.
+
+(* the mechanism of the first witness: each pair is an edge of the feature graph (the second fact is among the direct
+   consequences of the first); the chain leads from the target build of zvariant, through the host-only proc-macro crate
+   zvariant_derive, to `gvariant` on the HOST build of zvariant_utils, while zbus -> zbus_macros (host) -> zvariant (host)
+   brings a host build of zvariant for which nothing requests `gvariant` *)
+Theorem C35_gvariant_mechanism :
+  forallb (fun e => mem (snd e) (psuccs crates (fst e)))
+    [ (FV (B "zvariant") KT (FvFeat (B "gvariant")), FV (B "zvariant") KT (FvDepFeat (B "zvariant_derive") (B "gvariant") false));
+      (FV (B "zvariant") KT (FvDepFeat (B "zvariant_derive") (B "gvariant") false), FV (B "zvariant_derive") KH (FvFeat (B "gvariant")));
+      (FV (B "zvariant_derive") KH (FvFeat (B "gvariant")), FV (B "zvariant_derive") KH (FvDepFeat (B "zvariant_utils") (B "gvariant") false));
+      (FV (B "zvariant_derive") KH (FvDepFeat (B "zvariant_utils") (B "gvariant") false), FV (B "zvariant_utils") KH (FvFeat (B "gvariant")));
+      (FP (B "zbus") KT, FP (B "zbus_macros") KH);
+      (FP (B "zbus_macros") KH, FP (B "zvariant") KH) ] &&
+  match resolve_sel crates [ {| q_crate := B "zbus"; q_default := true; q_feats := [] |};
+                             {| q_crate := B "zvariant"; q_default := true; q_feats := [B "gvariant"] |} ] with
+  | Some St => mem (FV (B "zvariant") KT (FvFeat (B "gvariant"))) St && mem (FP (B "zbus") KT) St
+               && mem (FV (B "zvariant_utils") KH (FvFeat (B "gvariant"))) St && mem (FP (B "zvariant") KH) St
+               && negb (mem (FV (B "zvariant") KH (FvFeat (B "gvariant"))) St)
+  | None => false
+  end = true.
+Proof. exact gvariant_mechanism. Qed.
+Print Assumptions C35_gvariant_mechanism.
